@@ -194,7 +194,7 @@ func (g *gtree) relTarget(from, to int) []byte {
 	return bytes.Join(parts, []byte("/"))
 }
 
-func genTree(t *rapid.T) *gtree {
+func genTree(t *rapid.T, deepBias bool) *gtree {
 	g := &gtree{kids: map[int][]int{}}
 	root := Node{Parent: -1, Kind: "d", Mode: drawMode(t)}
 	root.Mtime, root.Nsec = drawMtime(t)
@@ -214,6 +214,10 @@ func genTree(t *rapid.T) *gtree {
 		rapid.SampledFrom([]int{14, 15, 16, 17, 18, 30, 31, 32, 33, 34, 38, 39}),
 		rapid.IntRange(0, 39),
 	).Draw(t, "spine")
+	if deepBias && depth <= 16 && rapid.Bool().Draw(t, "deeper") {
+		// cases with a concurrent client phase: more trees below the 16-element limit of one Twalk
+		depth = rapid.SampledFrom([]int{17, 18, 20, 31, 32, 33, 34, 39}).Draw(t, "deepspine")
+	}
 	spine := []int{0}
 	for i := 0; i < depth; i++ {
 		spine = append(spine, mkdir(spine[len(spine)-1]))
@@ -448,30 +452,35 @@ func genCli(t *rapid.T, g *gtree, min int) []CliOp {
 	var out []CliOp
 	n := rapid.IntRange(min, 7).Draw(t, "ncli")
 	for i := 0; i < n; i++ {
-		out = append(out, genCliOp(t, g))
+		out = append(out, genCliOp(t, g, false))
 	}
 	return out
 }
 
 // genConc draws the concurrent phase: 2..6 goroutines that share the go9p
 // client of the sequential phase, each with 1..5 calls on paths of its own
-// drawing (any depth, existing or not).
+// drawing (any depth, existing or not; in a quarter of the phases only paths
+// of at most 8 elements, so that deep paths lie only in the client's past).
 func genConc(t *rapid.T, g *gtree) [][]CliOp {
 	ng := rapid.IntRange(2, 6).Draw(t, "ngoroutines")
+	shallow := rapid.IntRange(0, 3).Draw(t, "shallowphase") == 0
 	out := make([][]CliOp, ng)
 	for j := range out {
 		n := rapid.IntRange(1, 5).Draw(t, "nconcops")
 		for i := 0; i < n; i++ {
-			out[j] = append(out[j], genCliOp(t, g))
+			out[j] = append(out[j], genCliOp(t, g, shallow))
 		}
 	}
 	return out
 }
 
-func genCliOp(t *rapid.T, g *gtree) CliOp {
+func genCliOp(t *rapid.T, g *gtree, shallow bool) CliOp {
 	op := CliOp{Kind: rapid.SampledFrom([]string{"fstat", "fstat", "fwalk", "fopen"}).Draw(t, "cliop")}
 	op.Style = rapid.SampledFrom([]int{0, 0, 0, 1, 2}).Draw(t, "style")
 	want := rapid.OneOf(rapid.IntRange(0, 5), rapid.IntRange(14, 20), rapid.IntRange(30, 40), rapid.Just(40)).Draw(t, "clidepth")
+	if shallow {
+		want = rapid.IntRange(0, 8).Draw(t, "shallowdepth")
+	}
 	names, at := g.descend(t, 0, want, true)
 	if hx.IsKnown(idSymStart) && rapid.IntRange(0, 3).Draw(t, "keep-known-boundary") != 0 {
 		// steer away from a symlink as 16th / 32nd element with more to follow
@@ -523,12 +532,12 @@ func genCase(t *rapid.T) *Case {
 	c.SrvDotu = rapid.IntRange(0, 3).Draw(t, "srvdotu") != 0
 	c.CliDotu = rapid.IntRange(0, 2).Draw(t, "clidotu") != 0
 	c.Msize = rapid.SampledFrom([]uint32{8192, 16384, 65536}).Draw(t, "msize")
-	g := genTree(t)
-	c.Tree = g.nodes
-	c.Ops = genOps(t, g)
 	// half of the cases end with a concurrent phase on the client that has just
 	// resolved the sequential paths (then there is at least one of those)
 	conc := rapid.Bool().Draw(t, "conc")
+	g := genTree(t, conc)
+	c.Tree = g.nodes
+	c.Ops = genOps(t, g)
 	min := 0
 	if conc {
 		min = 1
